@@ -370,6 +370,12 @@ func c11Projects(rng *rand.Rand) []project {
 		{Root: "{ // {additionalProperties: \"@ap\"}\n \"" + k1 + "\": " + n() + "\n}",
 			Types: []typeDef{{Name: "@ap", Text: `"s" // {maxLength: 9}`}}},
 		{Root: n() + " // {type: \"@num\"}", Types: []typeDef{{Name: "@num", Text: "1 // {min: 0}"}}},
+		// long rule values (expressions of 32+ bytes, several per schema, differing from case to case): anything the
+		// library remembers across schemas for the sake of speed shows between goroutines
+		{Root: "{\n \"when\": \"2021-0" + n()[:1] + "-02T07:23:12+03:00\", // {regex: \"^\\\\d{4}-0" + n()[:1] + "-\\\\d{2}T\\\\d{2}:\\\\d{2}:\\\\d{2}[+-]\\\\d{2}:\\\\d{2}$\"}\n \"id\": \"abcdef01-2345-6789-abcd-ef0123456789\" // {regex: \"^[0-9a-f]{8}-[0-9a-f]{4}-[0-9a-f]{4}-[0-9a-f]{4}-[0-9a-f]{12}$\"}\n}"},
+		{Root: "\"" + w() + "-" + w() + "-0123456789\" // {regex: \"^(alpha|beta|gamma|delta|kappa|omega)-(alpha|beta|gamma|delta|kappa|omega)-[0-9]{10}$\", minLength: 5}"},
+		{Root: "{\"v\": @long}", Types: []typeDef{{Name: "@long", Text: "\"" + w() + "_" + n() + "\" // {regex: \"^(alpha|beta|gamma|delta|kappa|omega)_[0-9]{1,3}$|^never-" + n() + "-matches-anything-at-all$\"}"}}},
+		{Root: "\"x\" // {enum: [\"x\", \"a-very-long-enumeration-item-number-" + n() + "-with-padding\", \"another-long-enumeration-item-" + n() + "-with-padding\"]}"},
 		{Root: "[\n @item, @item\n]",
 			Types: []typeDef{{Name: "@item", Text: "{\n \"p\": 1.25, // {precision: 2}\n \"q\": 1, // {nullable: true}\n \"e\": 2, // {enum: @nums}\n \"s\": \"new\" // {enum: @status}\n}"}},
 			Rules: append([]typeDef{{Name: "@nums", Text: "[1, 2, 3]"}}, status...)},
